@@ -77,8 +77,9 @@ Next ==
      ELSE IF bad THEN UNCHANGED <<iv, bad>>
      ELSE IF E.ev = "bfill" THEN
         LET x == iv[E.ty]
-            ok == Cnt(x) = 0 \/ E.from = x[2] + 1
-            nx == IF Cnt(x) = 0 THEN <<E.from, E.to>> ELSE <<x[1], E.to>>
+            \* elements from..to are appended at the tail (from = hi + 1) or put in front of the head (to = lo - 1)
+            ok == Cnt(x) = 0 \/ E.from = x[2] + 1 \/ E.to = x[1] - 1
+            nx == IF Cnt(x) = 0 THEN <<E.from, E.to>> ELSE IF E.from = x[2] + 1 THEN <<x[1], E.to>> ELSE <<E.from, x[2]>>
             er == CASE E.ty = "l" -> Cnt(nx) [] E.ty = "h" -> -1 [] OTHER -> E.to - E.from + 1
         IN IF ~ok THEN PrintT("OUTOFMODEL|" \o ToString(l)) /\ bad' = TRUE /\ UNCHANGED iv
            ELSE IF E.r = er THEN iv' = [iv EXCEPT ![E.ty] = nx] /\ UNCHANGED bad
